@@ -10,6 +10,9 @@ Command loops of `drv_c01` (core Lean only):
   drv_c01 ctype     `<t1> <t2>`                                            → result of Gen.getCommonType as (kind,size,unsigned)
   drv_c01 compile   `<t0,t1,..> <off0,off1,..> | <prefix expression>`      → `ok <type> <stack slots> <ins;;ins;;…>` | `none`
                     (Model/C01Expr `compileE`: the code of a whole side-effect-free expression tree, variable i at offi(%rbp))
+  drv_c01 compilex  `<t0,..> <off0,..> <toff0,..> | <prefix expression>`   → `ok <type> <stack slots> <temporaries> <nc 0|1> <pure 0|1> <ins;;…>` | `none`
+                    (`compileX`: also `,` `=` `op=` `++` `--` on variables; hidden temporary k at toffk(%rbp);
+                     nc = the C11 no-conflict side condition of theorem C01_value_effects holds; pure = `compileE` gives the same code)
 -/
 import ChibiVerif.Spec.IntSpec
 import ChibiVerif.Model.X86
@@ -216,6 +219,33 @@ def compileLine (line : String) : String :=
     | _ => "bad env"
   | _ => "bad line"
 
+def compileXLine (line : String) : String :=
+  match line.splitOn "|" with
+  | [hd, ex] =>
+    match words hd with
+    | [ts, os, tos] =>
+      let tys := (csv ts).map ITy.ofString?
+      let offs := (csv os).map String.toInt?
+      let toffs := (csv tos).map String.toInt?
+      if tys.any Option.isNone || offs.any Option.isNone || toffs.any Option.isNone || tys.length ≠ offs.length then "bad env" else
+      let tl := tys.filterMap id
+      let ol := offs.filterMap id
+      let tol := toffs.filterMap id
+      let toks := words ex
+      match parseE (toks.length + 1) toks with
+      | some (e, []) =>
+        match ChibiVerif.C01.compileX tl (fun i => ol.getD i 0) (fun k => tol.getD k 0) 0 e with
+        | some (t, code, k) =>
+            let pure := match ChibiVerif.C01.compileE tl (fun i => ol.getD i 0) e with
+              | some (t', code') => t' == t && code' == code
+              | none => false
+            s!"ok {t.toString} {ChibiVerif.C01.depthX e} {k} {b01 (ChibiVerif.C01.noConflict e)} {b01 pure} " ++
+              (if code.isEmpty then "empty" else ";;".intercalate (code.map Ins.render))
+        | none => "none"
+      | _ => "bad expr"
+    | _ => "bad env"
+  | _ => "bad line"
+
 partial def loop (h : IO.FS.Stream) (f : String → String) : IO UInt32 := do
   let line ← h.getLine
   if line.isEmpty then return 0
@@ -231,8 +261,9 @@ def main (args : List String) : IO UInt32 := do
   | "x86exec" :: _ => loop stdin x86Line
   | "ctype" :: _ => loop stdin ctypeLine
   | "compile" :: _ => loop stdin compileLine
+  | "compilex" :: _ => loop stdin compileXLine
   | _ =>
-    IO.eprintln "usage: drv_c01 eval|seq|x86exec|ctype|compile"
+    IO.eprintln "usage: drv_c01 eval|seq|x86exec|ctype|compile|compilex"
     return 2
 
 end ChibiVerif.Driver.C01
